@@ -1,8 +1,21 @@
 package values
 
 import (
+	"reflect"
+
 	yaml "gopkg.in/yaml.v2"
 )
+
+// sameKey is == on two interface values, false (instead of a panic) when they hold an uncomparable type
+func sameKey(a, b any) bool {
+	if a == nil || b == nil {
+		return a == b
+	}
+	if !reflect.ValueOf(a).Comparable() || !reflect.ValueOf(b).Comparable() {
+		return false
+	}
+	return a == b
+}
 
 type mapSliceValue struct {
 	slice yaml.MapSlice
@@ -15,7 +28,7 @@ func (v mapSliceValue) Interface() any { return v.slice }
 func (v mapSliceValue) Contains(elem Value) bool {
 	e := elem.Interface()
 	for _, item := range v.slice {
-		if e == item.Key {
+		if sameKey(e, item.Key) {
 			return true
 		}
 	}
@@ -25,7 +38,7 @@ func (v mapSliceValue) Contains(elem Value) bool {
 func (v mapSliceValue) IndexValue(index Value) Value {
 	e := index.Interface()
 	for _, item := range v.slice {
-		if e == item.Key {
+		if sameKey(e, item.Key) {
 			return ValueOf(item.Value)
 		}
 	}
